@@ -153,6 +153,10 @@ def checkNonWsPara (op : String) (od : Options Int) (text out : List Int) (hyphe
   if good || good2 then "ok"
   else if !wsStable ([0x20] ++ flatText (flatText text od.paraSep) od.lineSep ++ [0x20]) then
     s!"fail:C07 not-WsStable input: non-whitespace clusters changed by {op} (paragraph mode)"
+  else if (op == "Align" || op == "Justify") && (od.lineSep.head? == some 0x20 || od.lineSep.getLast? == some 0x20) then
+    -- finding D19: the placeholder SPACES that stand in for the paragraph separator's affixes complete a line
+    -- separator that begins or ends with a space; the removal by count then deletes text
+    s!"fail:C07 line separator beginning or ending with U+0020 in paragraph mode: placeholder spaces were taken for a line separator, non-whitespace clusters changed by {op}"
   else if !sepsIndependent od ∧ !(od.paraSep.length % od.lineSep.length == 0 ∧
       (List.replicate (od.paraSep.length / od.lineSep.length) od.lineSep).flatten == od.paraSep) then
     "skip:separators-overlap"
@@ -212,8 +216,8 @@ def checkJustify (text : List Int) (w : Int) (od : Options Int) (out : List Int)
 /-- C12 in paragraph mode, for paragraph separators made of line separators and the default trailing policy:
 the whole text's decomposition into lines is unaffected by paragraph mode, so the number of lines and the
 trailing separator are unchanged and every line comes out untouched (a paragraph's last line), merely
-space-collapsed, or justified as specified.  A necessary condition only (which line is a paragraph's last
-one is C11's homomorphism clause). -/
+space-collapsed, or justified as specified; the last line of every paragraph (located through the paragraph
+decomposition of C11) is untouched unless JustifyLastLine. -/
 def checkJustifyPara (text : List Int) (w : Int) (od : Options Int) (out : List Int) : String :=
   let sep := od.lineSep
   let made := !sep.isEmpty && !od.paraSep.isEmpty && od.paraSep.length % sep.length == 0 &&
@@ -226,13 +230,27 @@ def checkJustifyPara (text : List Int) (w : Int) (od : Options Int) (out : List 
     if ins.length != outs.length then "fail:C12 number of lines changed (paragraph mode)"
     else if (sep.isSuffixOf text) != (sep.isSuffixOf out) then "fail:C12 trailing separator changed (paragraph mode)"
     else if !stableDom [text] [sep] then "ok"
-    else Id.run do
-      for (li, lo) in ins.zip outs do
-        if li != lo then
-          match checkJustifyLine w li lo with
-          | some e => return "fail:" ++ e ++ " (paragraph mode)"
-          | none => pure ()
-      return "ok"
+    else
+      -- which of the whole text's lines is the LAST line of a paragraph: the line that ends the prefix
+      -- p₀ ++ PS ++ … ++ pᵢ, for every piece pᵢ that has a line at all
+      let pieces : List (List Int) := match paraCalls (.root text od) od with
+        | .ok cs => cs.map (·.1) | .error _ => []
+      if pieces.isEmpty ∨ joinWith od.paraSep pieces != text then "skip:paragraph-decomposition"
+      else
+        let lastIdx : List Nat := (List.range pieces.length).filterMap fun i =>
+          if (Spec.bareLines (pieces.getD i []) sep false).isEmpty then none
+          else
+            let c := (Spec.bareLines (joinWith od.paraSep (pieces.take (i + 1))) sep false).length
+            if c == 0 then none else some (c - 1)
+        Id.run do
+          for ((li, lo), j) in (ins.zip outs).zipIdx do
+            if lastIdx.contains j ∧ !od.justifyLast then
+              if li != lo then return "fail:C12 last line of a paragraph was touched (paragraph mode)"
+            else
+              match checkJustifyLine w li lo with
+              | some e => return "fail:" ++ e ++ " (paragraph mode)"
+              | none => pure ()
+          return "ok"
 
 def checkAlign (text : List Int) (al w : Int) (od : Options Int) (out : List Int) : String :=
   if al == Gen.alignNone ∨ (al != Gen.alignLeft ∧ al != Gen.alignRight ∧ al != Gen.alignCenter) then
@@ -326,7 +344,13 @@ def layoutStep (pid : String) (a : List String) (src : Obs) (res : Obs) : String
       | ["collapse", _, o] => bordered (sepOf o)
       | ["indent", _, _, o] => bordered (sepOf o)
       | _ => false
-    if lineWise then (match res with | .err k => s!"fail:C18 operation failed ({k})" | _ => "skip:bordered-separator") else
+    -- a line separator made of spaces only: lines are undefined, but whether the NON-WHITESPACE clusters
+    -- survive (C07) does not depend on the decomposition into lines (finding D19)
+    let blankSep := match a with
+      | ["wrap", _, _, o] | ["justify", _, _, o] | ["collapse", _, o] | ["align", _, _, _, o] =>
+        let sp := sepOf o; !sp.isEmpty && sp.all (· == 0x20) && pid == "C07"
+      | _ => false
+    if (lineWise && !blankSep) then (match res with | .err k => s!"fail:C18 operation failed ({k})" | _ => "skip:bordered-separator") else
     match a, res with
     | ["wrap", _, w, o], .ed out _ _ _ =>
       match parseInt w, effOpts so o with
